@@ -60,6 +60,20 @@ func (m *MessageCopyFromGenerator) GenerateFields(g *j.Group) {
 		g.Add(j.Id("obj." + m).Op("=").Nil())
 	}
 
+	// Reset nullable embedded messages as well: they are allocated on demand by their fields below,
+	// and would otherwise keep what the target held before when all of their attributes are null
+	embedded := make(map[string]struct{})
+	for _, f := range m.Fields {
+		if !f.ParentIsOptionalEmbed {
+			continue
+		}
+		if _, ok := embedded[f.ParentIsOptionalEmbedFieldName]; ok {
+			continue
+		}
+		embedded[f.ParentIsOptionalEmbedFieldName] = struct{}{}
+		g.Add(j.Id("obj." + f.ParentIsOptionalEmbedFieldName).Op("=").Nil())
+	}
+
 	for _, f := range m.Fields {
 		g.Add(NewFieldCopyFromGenerator(f, m.i).Generate())
 	}
